@@ -306,6 +306,11 @@ func c09Cells(tier string) []Cell {
 
 						cells = append(cells, Cell{ID: c09Cell{Mode: "failover", F: &c}.id()})
 					}
+
+					// two Gets on two different keys with the same xxhash64
+					col := FCfg{Front: front, SR: boolBits(bits, 0), SU: boolBits(bits, 1), MS: boolBits(bits, 2), Init: init + "A", FailC: "00", Script: sc, Collide: true,
+						Threads: [][]GOp{{{Key: 0}}, {{Key: 1}}}}
+					cells = append(cells, Cell{ID: c09Cell{Mode: "failover", F: &col}.id()})
 				}
 			}
 		}
@@ -415,6 +420,10 @@ func c09Failover(cfg FCfg, env *Env) CellResult {
 		var vs []Violation
 
 		for _, k := range h.front.WalkKeys() {
+			if h.cfg.Collide {
+				break
+			}
+
 			if h.keyIndex([]byte(k)) < 0 || k == mutatedKey {
 				vs = append(vs, Violation{Signature: fmt.Sprintf("C09 %s value-stored-under-overwritten-key", front),
 					Detail: fmt.Sprintf("after quiescence the backend holds key %q, which is what the caller wrote into its buffer AFTER Get returned; no Get was issued for it", k)})
@@ -442,6 +451,10 @@ func c09Failover(cfg FCfg, env *Env) CellResult {
 			}
 
 			t, isNil, _, found := h.front.Peek(h.keys[k])
+			if h.cfg.Collide {
+				continue // the colliding key may legitimately have evicted it
+			}
+
 			if !found || isNil || t.K != h.names[k] || t.O != "b" {
 				vs = append(vs, Violation{Signature: fmt.Sprintf("C09 %s built-value-not-under-original-key", front),
 					Detail: fmt.Sprintf("key %s was built successfully (%v) but the backend holds (%v found=%v) under the original key bytes", h.names[k], last.Tok, t, found)})
